@@ -16,7 +16,7 @@ def sim_exe(flavour="asan", transport="nompi"):
 
 
 def make_cases(prop, tier, seed, n, variants=(0,), fp_levels=(1, 2, 3), sizes=(0, 0, 1), gvts=None, ckpts=None, threads=None,
-               flavours=("asan",), stats=False, model_base=None, same_model_group=1):
+               flavours=("asan",), stats=False, model_base=None, same_model_group=1, burst=0):
     """n cases; same_model_group>1 => consecutive cases share the model seed (different configurations)."""
     cases = []
     exes = {fl: sim_exe(fl) for fl in flavours}
@@ -32,6 +32,9 @@ def make_cases(prop, tier, seed, n, variants=(0,), fp_levels=(1, 2, 3), sizes=(0
         v = variants[k % len(variants)]
         c = {"mseed": mseed, "size": sizes[g % len(sizes)], "threads": t, "ckpt": ck[(k * 3 + g) % len(ck)], "gvt": gv[(k * 5 + g) % len(gv)],
              "pseed": seed * 7919 + k, "fp": fp_levels[k % len(fp_levels)], "variant": v, "exe": exes[fl], "flavour": fl, "k": k}
+        if burst and k % burst == burst - 2:
+            # "burst" models: integer timestamps, chains of up to 12 simultaneous hops (many causally independent events at the timestamp of a GVT)
+            c["env"] = {"VM_FORCE_TS": "3", "VM_FORCE_RNG": "0"}
         if stats:
             c["stats"] = os.path.join(vlib.BUILD, "stats", "%s_%d_%d" % (prop, os.getpid(), k))
         cases.append(c)
@@ -61,7 +64,8 @@ def run_batches(cases, timeout=240, max_threads=16):
                 sem_lock.wait()
             avail[0] -= w
         try:
-            results[i] = vlib.run_case(cmd_of(c), timeout=timeout, env=c.get("env"), tag="m%d/t%d/ck%d/g%d/p%d/fp%d/v%d" % (c["mseed"], c["threads"], c["ckpt"], c["gvt"], c["pseed"], c["fp"], c["variant"]))
+            results[i] = vlib.run_case(cmd_of(c), timeout=timeout, env=c.get("env"), tag="m%d/t%d/ck%d/g%d/p%d/fp%d/v%d" % (c["mseed"], c["threads"], c["ckpt"], c["gvt"], c["pseed"], c["fp"], c["variant"]) +
+                                       "".join("/%s=%s" % (k[3:] if k.startswith("VM_") else k, v) for k, v in sorted((c.get("env") or {}).items())))
         finally:
             with sem_lock:
                 avail[0] += w
@@ -121,8 +125,8 @@ def run_sim_for(chk, prop, tier, seed):
     (fossil cut at a checkpoint at/below the committed frontier, rollbacks right after a collection)."""
     if prop == "C05":
         n = 60 if tier == "quick" else 500
-        cases = make_cases(prop, tier, seed, n, variants=(0,), fp_levels=(1, 10, 2, 3, 10), sizes=(0, 0, 1), ckpts=[0, 1, 2, 3, 5, 7, 64, 16])
+        cases = make_cases(prop, tier, seed, n, variants=(0,), fp_levels=(1, 10, 2, 3, 10), sizes=(0, 0, 1), ckpts=[0, 1, 2, 3, 5, 7, 64, 16], burst=5)
     else:
         n = 60 if tier == "quick" else 500
-        cases = make_cases(prop, tier, seed, n, variants=(0, 0, 1), fp_levels=(2, 10, 3, 1, 10), sizes=(0, 0, 1), gvts=[0, 0, 20, 0, 100], ckpts=[1, 2, 3, 4, 5, 6, 7])
+        cases = make_cases(prop, tier, seed, n, variants=(0, 0, 1), fp_levels=(2, 10, 3, 1, 10), sizes=(0, 0, 1), gvts=[0, 0, 20, 0, 100], ckpts=[1, 2, 3, 4, 5, 6, 7], burst=5)
     return run_sim_cases(chk, cases, timeout=300)
